@@ -42,6 +42,7 @@ type replayFile struct {
 	Dealer  int      `json:"dealer"`
 	Byz     []int    `json:"byzantine"`
 	Seed    int64    `json:"seed"`
+	Net     int      `json:"net_round_slip,omitempty"`
 	Script  []string `json:"script"`
 	Dev     []dkgsys.Deviation `json:"deviations"`
 	Path    []dkgsys.Trans `json:"path"`
@@ -51,7 +52,7 @@ type replayFile struct {
 }
 
 func mkReplay(cfg *dkgsys.Config, sc dkgsys.Script, path []dkgsys.Trans, detail string, st *dkgsys.State) replayFile {
-	r := replayFile{Config: cfg.String(), Proto: int(cfg.Proto), N: cfg.N, T: cfg.T, Dealer: cfg.Dealer, Byz: cfg.Byz, Seed: cfg.Seed, Dev: sc, Path: path, Detail: detail}
+	r := replayFile{Config: cfg.String(), Proto: int(cfg.Proto), N: cfg.N, T: cfg.T, Dealer: cfg.Dealer, Byz: cfg.Byz, Seed: cfg.Seed, Net: cfg.Net, Dev: sc, Path: path, Detail: detail}
 	for _, d := range sc {
 		r.Script = append(r.Script, d.String())
 	}
@@ -131,50 +132,73 @@ func Run(run *ev.Run, prop string, jobs []Job) {
 			return
 		}
 		u := units[i]
-		cfg := u.job.Cfg
-		rb := -1
-		if u.job.BoundedOrder {
-			rb = u.job.Reorder
-		}
-		rep, err := dkgsys.ExploreBounded(&cfg, u.sc, u.job.MaxStates, rb, func(prev *dkgsys.State, t dkgsys.Trans, next *dkgsys.State, evs []dkgsys.Event, path func() []dkgsys.Trans) {
-			c.edge(&cfg, u.sc, next, evs, path)
-		})
-		if err != nil {
-			run.Fatal("explore %v %v: %v", cfg.String(), u.sc, err)
-		}
-		if rep.Capped {
-			run.MarkCapped()
-		}
-		run.Add("states", int64(rep.States))
-		run.Add("transitions", int64(rep.Transitions))
-		run.Add("scripts", 1)
-		statsMu.Lock()
-		x := perCfg[cfg.String()]
-		x[0] += int64(rep.States)
-		x[1] += int64(rep.Transitions)
-		x[2]++
-		perCfg[cfg.String()] = x
-		statsMu.Unlock()
 		outs := map[string]bool{}
-		for ti, term := range rep.Terminals {
-			c.terminal(&cfg, u.sc, term)
-			o := term.State.Outcome()
-			if !outs[o] || ti%16 == 0 {
-				// conformance: re-execute the path from scratch on fresh instances without cloning
-				c.validate(&cfg, u.sc, term)
+		// network variants: explore with every reactive honest broadcast landing in its own round;
+		// if such broadcasts occur at all, also with the answers / the complaints / both landing one
+		// round later (Config.Net) - closed under what the variants themselves reveal
+		todo, seenNet := []int{0}, map[int]bool{0: true}
+		var cfg dkgsys.Config
+		for len(todo) > 0 {
+			net := todo[0]
+			todo = todo[1:]
+			cfg = u.job.Cfg
+			cfg.Net = net
+			cfg := cfg
+			rb := -1
+			if u.job.BoundedOrder {
+				rb = u.job.Reorder
 			}
-			outs[o] = true
+			rep, err := dkgsys.ExploreBounded(&cfg, u.sc, u.job.MaxStates, rb, func(prev *dkgsys.State, t dkgsys.Trans, next *dkgsys.State, evs []dkgsys.Event, path func() []dkgsys.Trans) {
+				c.edge(&cfg, u.sc, next, evs, path)
+			})
+			if err != nil {
+				run.Fatal("explore %v %v: %v", cfg.String(), u.sc, err)
+			}
+			for b := 1; b <= 2; b <<= 1 {
+				if rep.Reactive&b != 0 && net&b == 0 && !seenNet[net|b] {
+					seenNet[net|b] = true
+					todo = append(todo, net|b)
+				}
+			}
+			if rep.Capped {
+				run.MarkCapped()
+			}
+			run.Add("states", int64(rep.States))
+			run.Add("transitions", int64(rep.Transitions))
+			if net != 0 {
+				run.Add("explorations_with_round_slip", 1)
+			}
+			statsMu.Lock()
+			x := perCfg[u.job.Cfg.String()]
+			x[0] += int64(rep.States)
+			x[1] += int64(rep.Transitions)
+			if net == 0 {
+				x[2]++
+			}
+			perCfg[u.job.Cfg.String()] = x
+			statsMu.Unlock()
+			for ti, term := range rep.Terminals {
+				c.terminal(&cfg, u.sc, term)
+				o := term.State.Outcome()
+				if !outs[o] || ti%16 == 0 {
+					// conformance: re-execute the path from scratch on fresh instances without cloning
+					c.validate(&cfg, u.sc, term)
+				}
+				outs[o] = true
+			}
+			if i%997 == 3 && net == 0 {
+				run.Sample(map[string]any{"config": cfg.String(), "script": u.sc.String(), "states": rep.States, "transitions": rep.Transitions, "terminal_outcomes": keys(outs)})
+			}
 		}
+		run.Add("scripts", 1)
 		c.mu.Lock()
 		for o := range outs {
 			c.outcomes[outcomeClass(o)]++
 		}
 		c.mu.Unlock()
+		cfg = u.job.Cfg
 		if len(u.sc) > 0 {
 			run.Distinct(cfg.String() + "/" + u.sc.String())
-		}
-		if i%997 == 3 {
-			run.Sample(map[string]any{"config": cfg.String(), "script": u.sc.String(), "states": rep.States, "transitions": rep.Transitions, "terminal_outcomes": keys(outs)})
 		}
 	})
 	run.Set("per_config_states_transitions_scripts", perCfg)
@@ -639,7 +663,7 @@ func ReplayFile(run *ev.Run, prop string) {
 	if rp.N == 0 {
 		run.Fatal("replay: not a DKG system trace (plain-VSS histories are re-run by the normal run)")
 	}
-	cfg := &dkgsys.Config{Proto: dkgsys.Protocol(rp.Proto), N: rp.N, T: rp.T, Dealer: rp.Dealer, Byz: rp.Byz, Seed: rp.Seed}
+	cfg := &dkgsys.Config{Proto: dkgsys.Protocol(rp.Proto), N: rp.N, T: rp.T, Dealer: rp.Dealer, Byz: rp.Byz, Seed: rp.Seed, Net: rp.Net}
 	sc := dkgsys.Script(rp.Dev)
 	st, evs, err := dkgsys.Replay(cfg, sc, rp.Path)
 	if err != nil {
